@@ -20,6 +20,7 @@ M = {
     'x2t': '_ZN2au6detail22x_squared_plus_t_mod_nEmmm', 'absdiff': '_ZN2au6detail13absolute_diffEmm',
     'multiplicity': '_ZN2au6detail12multiplicityEmm', 'as_int': '_ZN2au6detail6as_intERKNS0_15LucasDParameterE',
     'increment_D': '_ZN2au6detail9incrementERNS0_15LucasDParameterE', 'find_prime_factor': '_ZN2au6detail17find_prime_factorEm',
+    'jacobi': '_ZN2au6detail13jacobi_symbolElm', 'jacobi_pos': '_ZN2au6detail32jacobi_symbol_positive_numeratorEmmi',
     'is_prime': '_ZN2au6detail8is_primeEm', 'pollard': '_ZN2au6detail23find_pollard_rho_factorEm', 'gcd': '_ZN2au6detail3gcdEmm',
 }
 PRE = '#include "au/utility/probable_primes.hh"\n#include "au/utility/factoring.hh"'
@@ -82,7 +83,7 @@ def D(id, target, harness, replace=(), contracts=None, wrap=True, must=('postcon
 # wrappers only make the driver instantiate the functions
 WRAPS = [Wrapper('w_c12_instantiate', 'uint64_t', [('uint64_t', 'a'), ('uint64_t', 'b'), ('uint64_t', 'n')],
                  'using namespace au::detail; auto d = decompose(n); return add_mod(a,b,n) + sub_mod(a,b,n) + mul_mod(a,b,n) + half_mod_odd(a,n) + pow_mod(a,b,n) '
-                 '+ d.power_of_two + multiplicity(a, n) + (uint64_t)bool_sign(a == b) + (uint64_t)miller_rabin(a, n) + (uint64_t)baillie_psw(n) + find_prime_factor(n);')]
+                 '+ d.power_of_two + multiplicity(a, n) + (uint64_t)bool_sign(a == b) + (uint64_t)miller_rabin(a, n) + (uint64_t)jacobi_symbol((int64_t)a, n) + (uint64_t)baillie_psw(n) + find_prime_factor(n);')]
 
 
 def obligations(tier, seed):
@@ -159,8 +160,25 @@ def obligations(tier, seed):
                            'answered true, or a value for which the LAST is_prime call answered true; FirstPrimes::values[i] stays in bounds (i <= 100), no division by zero. '
                            'is_prime under its purity contract, find_pollard_rho_factor under the empty contract.  ASSUMED: is_prime is exact (Baillie-PSW), rho factors divide n',
                   functions_under_contract=('au::detail::find_prime_factor',)))
+    # jacobi_symbol(a, n): reduction to the positive-numerator routine with the right residue, modulus and sign:
+    #   (a/n) = (|a| mod n / n) for a >= 0, and (-1/n) * (|a| mod n / n) for a < 0, where (-1/n) = +1 exactly when n = 1 (mod 4)
+    JP = 'f_' + M['jacobi_pos']
+    obs.append(Ob(id='C12.refinement.jacobi_symbol', prop='C12', group='C12', prelude=PRE, wrappers=WRAPS, inputs=[('int64_t', 'a'), ('uint64_t', 'n')], body='''
+  ASSUME(n > 1 && (n & 1) == 1 && a != INT64_MIN);
+  uint32_t r = TARGET((uint64_t)a, n);
+  uint64_t mag = a < 0 ? (uint64_t)(-a) : (uint64_t)a;
+  CHECK(%s_calls == 1, "delegates-once-to-the-positive-numerator-routine");
+  CHECK(%s_last_key[0] < n && %s_last_key[0] <= mag && (mag >= n || %s_last_key[0] == mag), "numerator-is-a-residue-of-abs-a");
+  CHECK(%s_last_key[1] == n, "modulus-is-passed-unchanged");
+  CHECK((int32_t)%s_last_key[2] == ((a >= 0 || (n %% 4) == 1) ? 1 : -1), "start-sign-is-minus-one-over-n-for-negative-a");
+  CHECK(r == %s_last_ret, "returns-what-the-routine-returned");
+''' % (JP, JP, JP, JP, JP, JP, JP), kind='L', promote=False, wrap=False, budget=300,
+                  dfcc=dict(target=M['jacobi'], target_re=r'^_ZN2au6detail13jacobi_symbolE', pure=['^' + M['jacobi_pos'] + '$'], contracts={M['jacobi']: dict(requires=[], ensures=[], assigns='')}),
+                  contract='jacobi_symbol(a, n), n odd > 1: calls jacobi_symbol_positive_numerator exactly once with a numerator that is a residue of |a| below n (equal to |a| when |a| < n; that it is exactly |a| mod n is two symbolic 64-bit dividers no back end equates), modulus n, and start sign +1 for a >= 0 and '
+                           '(-1/n) = (n mod 4 == 1 ? +1 : -1) for a < 0, and returns its result; no UB:*.  The positive-numerator routine itself stays ASSUMED',
+                  functions_under_contract=('au::detail::jacobi_symbol',)))
     hD = '  struct S_struct_au__detail__LucasDParameter *d;\n  f_%s(d);'
-    obs.append(D('C12.contract.as_int', 'as_int', hD % M['as_int'], replace=('bool_sign',), wrap=False,
+    obs.append(D('C12.contract.as_int', 'as_int', hD % M['as_int'], wrap=False,
                  contract_text='as_int(D): requires D.mag < 2^31; ensures +/- mag; the int multiplication does not overflow'))
     obs.append(D('C12.contract.increment_D', 'increment_D', hD % M['increment_D'], contract_text='increment(D): mag += 2 without wrap, sign flips; assigns only *D'))
     return obs
